@@ -34,6 +34,9 @@ QC = "qcircuit.qcircuit.QCircuit"
 
 
 def run(ctx: Ctx):
+    from .. import memo as _memo
+
+    ctx.section(_memo.check_memo_keys, ctx, ('qcircuit.',))
     an = fx.effects(ctx)
     repo = ctx.repo
     for name in ("__add__", "copy", "repeat"):
